@@ -379,12 +379,17 @@ def fuse_pit_modules(mod: fx.GraphModule, fold_bn: bool) -> None:
     :param fold_bn: flag to fold the bn layer into the linear/conv layer
     :type fold_bn: bool
     """
-    fuse_consecutive_layers(mod, PITConv1d, nn.BatchNorm1d,
-                            lambda x, y: remove_bn_inplace(x, y, fold_bn))
-    fuse_consecutive_layers(mod, PITConv2d, nn.BatchNorm2d,
-                            lambda x, y: remove_bn_inplace(x, y, fold_bn))
-    fuse_consecutive_layers(mod, PITLinear, nn.BatchNorm1d,
-                            lambda x, y: remove_bn_inplace(x, y, fold_bn))
+    def fuse_into_copy(lin: nn.Module, bn: nn.Module) -> nn.Module:
+        # `lin` may be a layer of the caller's own model (a user-placed PIT layer is shared by
+        # reference): fuse into a copy that keeps sharing the maskers, never into `lin` itself
+        memo = {id(m): m for m in lin.children() if m is not getattr(lin, 'bn', None)}
+        new_lin = copy.deepcopy(lin, memo)
+        remove_bn_inplace(new_lin, bn, fold_bn)
+        return new_lin
+
+    fuse_consecutive_layers(mod, PITConv1d, nn.BatchNorm1d, fuse_into_copy, in_place=False)
+    fuse_consecutive_layers(mod, PITConv2d, nn.BatchNorm2d, fuse_into_copy, in_place=False)
+    fuse_consecutive_layers(mod, PITLinear, nn.BatchNorm1d, fuse_into_copy, in_place=False)
 
 
 def register_input_features(mod: fx.GraphModule):
